@@ -81,62 +81,68 @@ theorem intervalSegments_flatten (k : Nat) (xs : List Rat) (hk : 0 < k) :
 
 theorem arraySplitSizes_eq (n k : Nat) : arraySplitSizes n k = Spec.equalSizes n k := rfl
 
-/-- `(interval[0], interval[-1])` of the index blocks -/
+/-- the `[start, end)` pairs `fit` stores for consecutive blocks of the given sizes -/
+def pairsFrom (start : Nat) : List Nat → List (List Int)
+  | [] => []
+  | s :: rest => [(start : Int), ((start + s : Nat) : Int)] :: pairsFrom (start + s) rest
+
+/-- `(interval[0], interval[-1])` of those pairs -/
 def boundsFrom (start : Nat) : List Nat → List (Int × Int)
   | [] => []
-  | s :: rest => ((start : Int), ((start + s - 1 : Nat) : Int)) :: boundsFrom (start + s) rest
+  | s :: rest => ((start : Int), ((start + s : Nat) : Int)) :: boundsFrom (start + s) rest
 
-theorem ivBounds_block (start s : Nat) (hs : 1 ≤ s) :
-    ivBounds ((List.range s).map (fun i => ((start + i : Nat) : Int))) =
-      .ok ((start : Int), ((start + s - 1 : Nat) : Int)) := by
+theorem splitToPair_block (start s : Nat) (hs : 1 ≤ s) :
+    splitToPair ((List.range s).map (fun i => ((start + i : Nat) : Int))) =
+      .ok [(start : Int), ((start + s : Nat) : Int)] := by
   have hne : s ≠ 0 := by omega
-  simp only [ivBounds, List.head?_map, List.getLast?_map, List.head?_range, List.getLast?_range, hne, if_false,
+  simp only [splitToPair, List.head?_map, List.getLast?_map, List.head?_range, List.getLast?_range, hne, if_false,
     Option.map_some]
-  have : start + (s - 1) = start + s - 1 := by omega
-  simp [this]
+  simp only [Except.ok.injEq, List.cons.injEq, and_true]
+  omega
 
-theorem blocksFrom_bounds (sizes : List Nat) (start : Nat) (h : ∀ s ∈ sizes, 1 ≤ s) :
-    (blocksFrom start sizes).mapM ivBounds = .ok (boundsFrom start sizes) := by
+theorem blocksFrom_pairs (sizes : List Nat) (start : Nat) (h : ∀ s ∈ sizes, 1 ≤ s) :
+    (blocksFrom start sizes).mapM splitToPair = .ok (pairsFrom start sizes) := by
   induction sizes generalizing start with
   | nil => rfl
   | cons s rest ih =>
-    simp only [blocksFrom, List.mapM_cons, bind, Except.bind, ivBounds_block start s (h s List.mem_cons_self),
-      ih (start + s) (fun t ht => h t (List.mem_cons_of_mem _ ht)), boundsFrom, pure, Except.pure]
+    simp only [blocksFrom, List.mapM_cons, bind, Except.bind, splitToPair_block start s (h s List.mem_cons_self),
+      ih (start + s) (fun t ht => h t (List.mem_cons_of_mem _ ht)), pairsFrom, pure, Except.pure]
 
-theorem dropLast_take (l : List Rat) (s : Nat) (h : s ≤ l.length) : (l.take s).dropLast = l.take (s - 1) := by
-  rw [List.dropLast_eq_take, List.length_take, Nat.min_eq_left h, List.take_take]; congr 1; omega
-
-/-- the code's slices are the specification's blocks with the last point of each block missing -/
-theorem slices_eq_blocks_dropLast (sizes : List Nat) (start : Nat) (row : List Rat)
-    (h1 : ∀ s ∈ sizes, 1 ≤ s) (h2 : start + sizes.sum ≤ row.length) :
-    (boundsFrom start sizes).map (fun b => pySlice row b.1 b.2) =
-      (Spec.blocks sizes (row.drop start)).map List.dropLast := by
+theorem pairsFrom_bounds (sizes : List Nat) (start : Nat) :
+    (pairsFrom start sizes).mapM ivBounds = .ok (boundsFrom start sizes) := by
   induction sizes generalizing start with
   | nil => rfl
   | cons s rest ih =>
-    have hs := h1 s List.mem_cons_self
+    simp only [pairsFrom, List.mapM_cons, bind, Except.bind, ih (start + s), boundsFrom, pure, Except.pure]
+    simp [ivBounds]
+
+/-- the slices taken by `transform` are exactly the specification's blocks -/
+theorem slices_eq_blocks (sizes : List Nat) (start : Nat) (row : List Rat)
+    (h2 : start + sizes.sum ≤ row.length) :
+    (boundsFrom start sizes).map (fun b => pySlice row b.1 b.2) = Spec.blocks sizes (row.drop start) := by
+  induction sizes generalizing start with
+  | nil => rfl
+  | cons s rest ih =>
     simp only [List.sum_cons] at h2
     simp only [boundsFrom, List.map_cons, Spec.blocks]
-    rw [pySlice_nat row start (start + s - 1) (by omega)]
-    rw [dropLast_take _ s (by simp; omega)]
-    have e1 : start + s - 1 - start = s - 1 := by omega
+    rw [pySlice_nat row start (start + s) (by omega)]
+    have e1 : start + s - start = s := by omega
     rw [e1, List.drop_drop]
-    have := ih (start + s) (fun t ht => h1 t (List.mem_cons_of_mem _ ht)) (by omega)
-    rw [this]
+    rw [ih (start + s) (by omega)]
 
 theorem equalSizes_pos (n k : Nat) (hk : 0 < k) (h : k ≤ n) : ∀ s ∈ Spec.equalSizes n k, 1 ≤ s := by
   intro s hs
   have : 1 ≤ n / k := (Nat.le_div_iff_mul_le hk).mpr (by omega)
   rcases equalSizes_near_equal n k s hs with rfl | rfl <;> omega
 
-/-- segments produced for an integer `intervals = k` on a row of length `n` -/
+/-- fitted pairs and segments produced for an integer `intervals = k` on a row of length `n` -/
 theorem count_segments (k : Nat) (row : List Rat) (hk : 0 < k) (hkn : k ≤ row.length) :
-    ∃ bounds, (arraySplit row.length k).mapM ivBounds = .ok bounds ∧
-      bounds.map (fun b => pySlice row b.1 b.2) = (Spec.intervalSegments k row).map List.dropLast := by
-  refine ⟨boundsFrom 0 (Spec.equalSizes row.length k), ?_, ?_⟩
-  · exact blocksFrom_bounds _ 0 (equalSizes_pos _ k hk hkn)
-  · have := slices_eq_blocks_dropLast (Spec.equalSizes row.length k) 0 row (equalSizes_pos _ k hk hkn)
-      (by rw [equalSizes_sum _ k hk]; omega)
+    ∃ ivs bounds, (arraySplit row.length k).mapM splitToPair = .ok ivs ∧ ivs.mapM ivBounds = .ok bounds ∧
+      bounds.map (fun b => pySlice row b.1 b.2) = Spec.intervalSegments k row := by
+  refine ⟨pairsFrom 0 (Spec.equalSizes row.length k), boundsFrom 0 (Spec.equalSizes row.length k), ?_, ?_, ?_⟩
+  · exact blocksFrom_pairs _ 0 (equalSizes_pos _ k hk hkn)
+  · exact pairsFrom_bounds _ 0
+  · have := slices_eq_blocks (Spec.equalSizes row.length k) 0 row (by rw [equalSizes_sum _ k hk]; omega)
     simpa [Spec.intervalSegments] using this
 
 /-! ### explicit intervals -/
@@ -195,10 +201,11 @@ theorem univariateTable_ok {X : Panel} {tbl : List (List Rat)} (h : univariateTa
           simp [column]
         · cases h
 
-/-- what the code returns for `intervals = k` (1 ≤ k ≤ n/2) on equal-length rows of length `n` -/
+/-- `IntervalSegmenter(intervals=k)` (1 ≤ k ≤ n/2) on equal-length rows of length `n`: the `k` near-equal
+consecutive blocks of every series -/
 theorem iseg_count (k n : Nat) (X : Panel) (tbl : List (List Rat)) (ht : univariateTable X = .ok tbl)
     (hn : ∀ row ∈ tbl, row.length = n) (hk : 0 < k) (hkn : k ≤ n / 2) :
-    iseg (.count (k : Int)) X X = .ok (tbl.map (fun row => (Spec.intervalSegments k row).map List.dropLast)) := by
+    iseg (.count (k : Int)) X X = .ok (tbl.map (Spec.intervalSegments k)) := by
   obtain ⟨_, hne⟩ := univariateTable_ok ht
   have hhead : (tbl.head?.getD []).length = n := by
     cases tbl with
@@ -209,18 +216,20 @@ theorem iseg_count (k n : Nat) (X : Panel) (tbl : List (List Rat)) (ht : univari
     omega
   have g1 : ¬ ¬ ((k : Int) ≤ ((n / 2 : Nat) : Int)) := by omega
   have g2 : ¬ ((k : Int) ≤ 0) := by omega
-  -- bounds of the fitted index blocks (they depend on n only)
+  -- the fitted pairs depend on n only
   obtain ⟨row0, hrow0⟩ : ∃ row0 : List Rat, row0.length = n := ⟨List.replicate n 0, by simp⟩
-  obtain ⟨bounds, hb, _⟩ := count_segments k row0 hk (by omega)
-  rw [hrow0] at hb
+  obtain ⟨ivs, bounds, hiv, hb, _⟩ := count_segments k row0 hk (by omega)
+  rw [hrow0] at hiv
   simp only [iseg, isegFit, ht, bind, Except.bind, hhead, g1, g2, if_false, pure, Except.pure, isegTransform,
-    Int.toNat_natCast, hb]
+    Int.toNat_natCast, hiv, hb]
   congr 1
   apply List.map_congr_left
   intro row hrow
   have hlen := hn row hrow
-  obtain ⟨bounds', hb', hs'⟩ := count_segments k row hk (by omega)
-  rw [hlen, hb] at hb'
+  obtain ⟨ivs', bounds', hiv', hb', hs'⟩ := count_segments k row hk (by omega)
+  rw [hlen, hiv] at hiv'
+  cases hiv'
+  rw [hb] at hb'
   cases hb'
   exact hs'
 
